@@ -135,3 +135,67 @@ def run_variants(ctx, variants):
     ctx.report.extra["seeded_variants_summary"] = {
         s: sum(1 for r in results if r["status"] == s) for s in sorted(set(r["status"] for r in results))}
     return results
+
+
+def run_seed_patches(ctx, seed_dir=None):
+    """thorough tier: every kept sub-agent change for this property (seeded/<prop>-*/patch.diff) is applied to scratch
+    copies of the files it touches and the rules are re-run on that overlay.  Nothing under /repo is modified."""
+    import json
+    import subprocess
+    seed_dir = seed_dir or os.path.join(facts.VERIF, "seeded")
+    if not os.path.isdir(seed_dir):
+        return []
+    notes = {}
+    try:
+        notes = json.load(open(os.path.join(seed_dir, "NOTES.json")))
+    except Exception:
+        pass
+    mod = ctx.mod
+    units = list(mod.UNITS)
+    base = set((i["rule"], i["site"]) for r in ctx.report.rules for i in r.instances if i["verdict"] == "violated")
+    results = []
+    for d in sorted(os.listdir(seed_dir)):
+        pf = os.path.join(seed_dir, d, "patch.diff")
+        if not d.startswith(ctx.prop + "-") or not os.path.isfile(pf):
+            continue
+        res = {"name": d, "kind": "sub-agent change", "expected": "not decidable" if "NOT DETECTED" in notes.get(d, "") else "detected"}
+        files = []
+        for line in open(pf):
+            if line.startswith("+++ b/"):
+                files.append(line[6:].strip())
+        scratch = tempfile.mkdtemp(prefix="llbx-seed-", dir=os.environ.get("VERIF_SCRATCH", "/tmp"))
+        try:
+            ok = True
+            for rel in files:
+                src = os.path.join(facts.REPO, rel)
+                if not os.path.isfile(src):
+                    ok = False
+                    break
+                dst = os.path.join(scratch, rel)
+                os.makedirs(os.path.dirname(dst), exist_ok=True)
+                shutil.copy(src, dst)
+            if ok:
+                p = subprocess.run(["patch", "-p1", "-s", "--no-backup-if-mismatch", "-i", pf], cwd=scratch, stdout=subprocess.PIPE, stderr=subprocess.STDOUT)
+                ok = p.returncode == 0
+            if not ok:
+                res.update(status="skipped", detail="patch does not apply to the current tree")
+                results.append(res)
+                continue
+            repl = {rel: open(os.path.join(scratch, rel)).read() for rel in files}
+        finally:
+            shutil.rmtree(scratch, ignore_errors=True)
+        try:
+            prog = overlay_program(units, repl, tag=ctx.prop + "-seed")
+            got = violations_of(ctx.prop, mod, prog)
+        except AnalysisBroken as e:
+            res.update(status="analysis-broken", detail=str(e)[:200])
+            results.append(res)
+            continue
+        new = got - base
+        if new:
+            res.update(status="detected", detail="; ".join("%s %s" % x for x in sorted(new))[:300])
+        else:
+            res.update(status="not-detected" if res["expected"] == "not decidable" else "MISSED", detail="no new violation")
+        results.append(res)
+    ctx.report.extra["sub_agent_changes"] = results
+    return results
